@@ -19,9 +19,14 @@ if not os.path.isdir(wt) and os.path.exists(f'{dst}/meta.json'):
     # re-check mode: the change was confirmed earlier; run the (strengthened) checks again
     meta = json.load(open(f'{dst}/meta.json'))
     res = {}
-    rc_a, oa = run(f"git -C /repo apply {dst}/patch.diff")
+    # the change is applied to a scratch worktree of /repo (GOSYM_REPO), so /repo itself stays untouched
+    # and other runs are not disturbed; equivalent to `git -C /repo apply` + `git -C /repo checkout -- .`
+    swt = f'/tmp/seedwt-{cid}-{os.getpid()}'
+    run(f"git -C /repo worktree add --detach {swt} HEAD")
+    rc_a, oa = run(f"git -C {swt} apply {dst}/patch.diff")
     if rc_a != 0:
-        print('apply failed', oa); sys.exit(2)
+        print('apply failed', oa); run(f"git -C /repo worktree remove --force {swt}"); sys.exit(2)
+    env['GOSYM_REPO'] = swt
     try:
         for p in props:
             t0 = time.time()
@@ -29,7 +34,7 @@ if not os.path.isdir(wt) and os.path.exists(f'{dst}/meta.json'):
             viol = [l.strip() for l in oc.splitlines() if l.startswith('VIOLATION') or l.strip().startswith('harness=')]
             res[p] = {'exit': rc_c, 'wall_s': round(time.time()-t0,1), 'violations': viol[:12], 'tail': oc.splitlines()[-1] if oc else ''}
     finally:
-        run("git -C /repo checkout -- .")
+        run(f"git -C /repo worktree remove --force {swt}")
     meta.setdefault('rechecks', []).append({'at': time.strftime('%Y-%m-%dT%H:%M:%SZ', time.gmtime()), 'checks': res})
     meta['detected_after_strengthening'] = any(r['exit'] == 1 for r in res.values())
     json.dump(meta, open(f'{dst}/meta.json','w'), indent=1)
